@@ -227,6 +227,28 @@ def expected_conj_raise(r):
     return walk(r)
 
 
+def live_nonpos_left_scalar(f, depth=0):
+    """Does the live object contain a FunctionalLeftScalarMult with scalar <= 0 (also where
+    `f * s` was dispatched to `s * f` for a functional flagged linear)?  Its convex_conj raises
+    the documented ValueError; used where no model answer is available (oracle-only search)."""
+    if type(f).__name__ == 'FunctionalLeftScalarMult':
+        try:
+            if float(f.scalar) <= 0:
+                return True
+        except Exception:  # noqa
+            pass
+    if depth > 8:
+        return False
+    for attr in ('functional', 'left', 'right', 'operator'):
+        try:
+            h = getattr(f, attr, None)
+        except Exception:  # noqa
+            h = None
+        if h is not None and h is not f and live_nonpos_left_scalar(h, depth + 1):
+            return True
+    return False
+
+
 def tag(r):
     """Words identifying special input classes (matched by known_findings.json)."""
     return ' [QuadraticForm-with-operator]' if has_quadform_with_operator(r) else ''
@@ -263,6 +285,8 @@ def check_expr(ctx, r, S, stream, lines, pend, n_pts=3, oracle_only=False):
             # `f * s` was dispatched to `s * f` for a functional flagged linear) says `noconj`
             lines.append('conjskel f={} w={} x={}'.format(w, fc.wl(S), zeros))
             pend.append(('conjraise', dict(desc0, key='convex_conj-raises ' + key0), st, stream))
+        elif exp is None and 'ValueError' in st and live_nonpos_left_scalar(f):
+            ctx.hit('conj-raises/dispatched-nonpositive-left-scalar')
         elif exp is None or exp not in st:
             ctx.violation('convex_conj-raises ' + key0, 'f.convex_conj raised ' + st, desc0)
         ctx.case(('conj-raises', S.kind, classes))
@@ -284,6 +308,8 @@ def check_expr(ctx, r, S, stream, lines, pend, n_pts=3, oracle_only=False):
         if w is not None:
             lines.append('biconjval f={} w={} x={}'.format(w, fc.wl(S), zeros))
             pend.append(('conjraise', dict(desc0, key='biconj-raises ' + key0), st, stream))
+        elif 'ValueError' in st and live_nonpos_left_scalar(g):
+            ctx.hit('biconj-raises/dispatched-nonpositive-left-scalar')
         else:
             ctx.violation('biconj-raises ' + key0, 'f.convex_conj.convex_conj raised ' + st, desc0)
     evaluable = r[0] != 'infconv'
@@ -407,6 +433,41 @@ def check_expr(ctx, r, S, stream, lines, pend, n_pts=3, oracle_only=False):
         moreau(ctx, f, g, S, x, xs, sigma, desc, key0, classes, r, w, lines, pend, stream)
 
 
+def has_default_conj(g, depth=0):
+    """Does the conjugate contain FunctionalDefaultConvexConjugate (proximal DEFINED by Moreau)?"""
+    if type(g).__name__ == 'FunctionalDefaultConvexConjugate':
+        return True
+    if depth > 6:
+        return False
+    for attr in ('functional', 'left', 'operator'):
+        h = getattr(g, attr, None)
+        if h is not None and h is not g and has_default_conj(h, depth + 1):
+            return True
+    return False
+
+
+def default_conj_recipes(rng, S, count):
+    """FunctionalQuadraticPerturb with quadratic coefficient a > 0: `convex_conj` falls back to
+    FunctionalDefaultConvexConjugate, whose proximal is proximal_convex_conj(f.proximal); the
+    primal proximal runs proximal_quadratic_perturbation with a != 0 (np.sqrt)."""
+    n = S.size
+    out = []
+    for i in range(count):
+        sub = gen_recipe(rng, S, rng.randint(0, 2), True)
+        while 'quadmat' in fc.recipe_classes(sub):
+            sub = gen_recipe(rng, S, rng.randint(0, 2), True)
+        # 2*sigma*a + 1 is a rational square for (a, sigma) = (1.5, 1), (0.75, 2), (3, 0.5), (6, 0.25) ...
+        a = rng.choice([0.5, 1.0, 2.0, 1.5, 0.75, 3.0, 6.0])
+        r = ['qp', a, rng.choice([None, fc.rvec(rng, n)]), rng.choice([0.0, 1.0, -0.5]), sub]
+        w = rng.random()
+        if w < 0.2:
+            r = ['lscal', rng.choice([2.0, 0.5]), r]
+        elif w < 0.4:
+            r = ['trans', fc.rvec(rng, n), r]
+        out.append(r)
+    return out
+
+
 def lam_fudged(S):
     """`lam = float(lam * (1 - eps))` of proximal_convex_conj_l1 for lam = 1 on this space."""
     try:
@@ -440,7 +501,7 @@ def moreau(ctx, f, g, S, x, xs, sigma, desc, key0, classes, r, w=None, lines=Non
         return
     # pairs whose conjugate proximal the CODE itself defines through the Moreau identity
     # (proximal_convex_conj): the comparison is code-vs-itself there and is labelled as such
-    selfref = bool(set(classes) & SELF_REFERENTIAL)
+    selfref = bool(set(classes) & SELF_REFERENTIAL) or has_default_conj(g)
     kind = 'moreau-selfref' if selfref else 'moreau'
     ctx.case((kind, S.kind, classes) if float(x.norm()) else None)
     ctx.hit(kind + '/' + r[0])
@@ -571,6 +632,10 @@ def run(ctx, deep=False):
                 exact = False     # np.linalg.inv of the inverse is not exact
             check_expr(ctx, r, S, 'exact' if exact else 'general', lines, pend,
                        n_pts=2 if quick else 3)
+    for S in fc.all_spaces():
+        for r in default_conj_recipes(rng, S, 8 if quick else 40):
+            ctx.hit('default-conj/' + r[0])
+            check_expr(ctx, r, S, 'exact', lines, pend, n_pts=2)
     fc.history_stream(ctx, 'C08', 12 if quick else 60)
     fc.wide_stream(ctx, 'C08', 2 if quick else 8)
     fc.forms_stream(ctx, 'C08')
